@@ -252,4 +252,94 @@ theorem ids_nodup_of_countInv {s : St} (h : CountInv s) (hc : ClassOK s.copies) 
   rw [hu, hv] at heq
   exact hk (uidOf_inj p heq.2)
 
+theorem anyOk_spec (name : String) (l : List JobRes) (hv : ∀ t ∈ l, (statusOk t.status).isSome = true) :
+    ∃ b, anyOk name l = .ok b ∧
+      (b = true ↔ ∃ r ∈ l, r.name = name ∧ statusOk r.status = some true) := by
+  induction l with
+  | nil => exact ⟨false, rfl, by simp⟩
+  | cons t ts ih =>
+    obtain ⟨b, hb, hiff⟩ := ih (fun x hx => hv x (List.mem_cons_of_mem _ hx))
+    have ht := hv t List.mem_cons_self
+    unfold anyOk
+    by_cases hn : (t.name == name) = true
+    · have hn' : t.name = name := by simpa using hn
+      simp only [hn, if_true]
+      cases hs : statusOk t.status with
+      | none => rw [hs] at ht; cases ht
+      | some v =>
+        cases v with
+        | true => exact ⟨true, rfl, by simp only [true_iff]; exact ⟨t, List.mem_cons_self, hn', hs⟩⟩
+        | false =>
+          refine ⟨b, hb, hiff.trans ?_⟩
+          constructor
+          · intro ⟨r, hr, h1, h2⟩; exact ⟨r, List.mem_cons_of_mem _ hr, h1, h2⟩
+          · intro ⟨r, hr, h1, h2⟩
+            rcases List.mem_cons.mp hr with rfl | hr
+            · rw [hs] at h2; cases h2
+            · exact ⟨r, hr, h1, h2⟩
+    · have hn' : t.name ≠ name := by simpa using hn
+      simp only [hn, Bool.false_eq_true, if_false]
+      refine ⟨b, hb, hiff.trans ?_⟩
+      constructor
+      · intro ⟨r, hr, h1, h2⟩; exact ⟨r, List.mem_cons_of_mem _ hr, h1, h2⟩
+      · intro ⟨r, hr, h1, h2⟩
+        rcases List.mem_cons.mp hr with rfl | hr
+        · exact absurd h1 hn'
+        · exact ⟨r, hr, h1, h2⟩
+
+theorem allOkLoop_spec (all rest : List JobRes) (hv : ∀ t ∈ all, (statusOk t.status).isSome = true) :
+    ∃ b, allOkLoop all rest = .ok b ∧
+      (b = true ↔ ∀ t ∈ rest, ∃ r ∈ all, r.name = t.name ∧ statusOk r.status = some true) := by
+  induction rest with
+  | nil => exact ⟨true, rfl, by simp⟩
+  | cons t ts ih =>
+    obtain ⟨b, hb, hiff⟩ := ih
+    obtain ⟨a, ha, haiff⟩ := anyOk_spec t.name all hv
+    unfold allOkLoop
+    rw [ha]
+    cases a with
+    | false =>
+      refine ⟨false, rfl, ?_⟩
+      constructor
+      · intro h; cases h
+      · intro h
+        have := haiff.mpr (h t List.mem_cons_self)
+        cases this
+    | true =>
+      refine ⟨b, hb, hiff.trans ?_⟩
+      constructor
+      · intro h x hx
+        rcases List.mem_cons.mp hx with rfl | hx
+        · exact haiff.mp rfl
+        · exact h x hx
+      · intro h x hx; exact h x (List.mem_cons_of_mem _ hx)
+
+theorem lookup_append_fresh (job : List JobRes) (name uid st : String) (t : Nat)
+    (hfresh : ∀ x ∈ job, ¬ (x.name = name ∧ x.uid = uid)) :
+    lookupJob (job ++ [{ name := name, uid := uid, status := st, time := t }]) name uid =
+      some { name := name, uid := uid, status := st, time := t } := by
+  unfold lookupJob
+  rw [List.find?_append]
+  have : job.find? (fun x => x.name == name && x.uid == uid) = none := by
+    rw [List.find?_eq_none]
+    intro x hx h
+    simp only [Bool.and_eq_true, beq_iff_eq] at h
+    exact hfresh x hx h
+  rw [this]
+  simp
+
+theorem lookup_fresh_none (job : List JobRes) (name uid : String)
+    (hfresh : ∀ x ∈ job, ¬ (x.name = name ∧ x.uid = uid)) : lookupJob job name uid = none := by
+  unfold lookupJob
+  rw [List.find?_eq_none]
+  intro x hx h
+  simp only [Bool.and_eq_true, beq_iff_eq] at h
+  exact hfresh x hx h
+
+theorem contains_append_false {l1 l2 : List String} {a : String}
+    (h1 : l1.contains a = false) (h2 : l2.contains a = false) : (l1 ++ l2).contains a = false := by
+  rw [Bool.eq_false_iff] at *
+  simp only [ne_eq, List.contains_iff_mem, List.mem_append] at *
+  rintro (h | h); exact h1 h; exact h2 h
+
 end I2N.Lemmas.Rules
